@@ -240,6 +240,90 @@ def graph_ok_disagreements(world):
     return out, len(ids) ** 2, strict
 
 
+def nonmember_stage(chk, binary):
+    """deps() / rdeps() over a package graph in which a dependency path between two workspace members runs
+    through a package that is NOT a workspace member (the fixture with crate_d turned into a non-member
+    path dependency: crate_e -> crate_d -> crate_b -> crate_a, crate_d -> crate_c). Oracle: the documented
+    sets, from the closure of the cargo-metadata edges over ALL packages, restricted to workspace members."""
+    import subprocess
+    meta = json.load(open(os.path.join(vlib.REPO, "fixtures", "tests-workspace-metadata.json")))
+    out_id = [m for m in meta["workspace_members"] if m.startswith("crate_d ")]
+    if len(out_id) != 1:
+        chk.count("nonmember_stage_skipped_fixture_changed")
+        return
+    for key in ("workspace_members", "workspace_default_members"):
+        if key in meta:
+            meta[key] = [m for m in meta[key] if m != out_id[0]]
+    path = os.path.join(vlib.CACHE, "c05_nonmember_metadata.json")
+    json.dump(meta, open(path, "w"))
+    env = dict(vlib.ENV, VERIF_GRAPH_JSON=path)
+
+    def harness(cases):
+        p = subprocess.run([binary, "filterset"], input="\n".join(json.dumps(c) for c in cases) + "\n",
+                           capture_output=True, text=True, env=env, timeout=300)
+        lines = [l for l in p.stdout.split("\n") if l.strip()]
+        if p.returncode != 0 or len(lines) != len(cases):
+            raise RuntimeError(f"harness filterset (non-member graph) failed rc={p.returncode}: {p.stderr[-800:]}")
+        return [json.loads(l) for l in lines]
+
+    world = harness([dict(op="graph")])[0]
+    direct = {n["id"]: [d["pkg"] for d in n["deps"]] for n in meta["resolve"]["nodes"]}
+
+    def reach(a):
+        seen, todo = {a}, [a]
+        while todo:
+            x = todo.pop()
+            for y in direct.get(x, []):
+                if y not in seen:
+                    seen.add(y)
+                    todo.append(y)
+        return seen
+    ids, names = world["ids"], world["names"]
+    if out_id[0] in ids:
+        chk.violation("broken-obligation", "nonmember-graph", dict(error="crate_d is still a workspace member"), no_input=True)
+        return
+    reach_of = {a: reach(a) for a in ids}
+    queries = [[ids[j], names[j], names[j], "lib", "target", "t"] for j in range(len(ids))]
+    cases, want = [], []
+    for i, n in enumerate(names):
+        for pred in ("deps", "rdeps"):
+            for spell in (f"{pred}(={n})", f"{pred}({n})", f"not {pred}(={n})"):
+                cases.append(dict(op="eval", s=spell, default=None, queries=queries))
+                row = [(ids[j] in reach_of[ids[i]]) if pred == "deps" else (ids[i] in reach_of[ids[j]])
+                       for j in range(len(ids))]
+                want.append([not x for x in row] if spell.startswith("not ") else row)
+    res = harness(cases)
+    through = 0
+    for c, io, w in zip(cases, res, want):
+        chk.count("nonmember_graph_cases")
+        if not io.get("ok"):
+            chk.violation("counterexample", "oracle:nonmember-graph",
+                          dict(input=c["s"], impl=io, clause="a deps()/rdeps() filterset naming a workspace package was rejected"))
+            return
+        got = [bool(x[0]) for x in io["res"]]
+        if got != w:
+            chk.violation("counterexample", "oracle:nonmember-graph", dict(
+                input=c["s"], packages=names, impl=got, documented=w,
+                clause="deps(x) = x and everything x depends on transitively, rdeps(x) = x and everything depending on it "
+                       "transitively -- also along paths that leave the workspace (crate_d is a non-member path dependency)"))
+            return
+    # non-vacuity: some member pair is connected only through the non-member
+    for a in ids:
+        for b in reach_of[a]:
+            if b in ids and b != a:
+                seen, todo = {a}, [a]
+                while todo:
+                    x = todo.pop()
+                    for y in direct.get(x, []):
+                        if y not in seen and y in ids:
+                            seen.add(y); todo.append(y)
+                through += b not in seen
+    chk.count("nonmember_graph_pairs_only_through_nonmember", through)
+    if through == 0:
+        chk.violation("broken-obligation", "nonmember-graph",
+                      dict(error="no member pair is connected only through the non-member: the stage tests nothing"), no_input=True)
+
+
 def run(tier, seed):
     chk = vlib.Check(PROP, tier, seed)
     gate = vlib.coq_gate(PROP)
@@ -258,6 +342,7 @@ def run(tier, seed):
         if counters[name] <= 2:
             viols.append((kind, name, detail, no_input))
 
+    nonmember_stage(chk, binary)
     gbad0, gpairs, gstrict = graph_ok_disagreements(world)
     chk.count("graph_ok_pairs", gpairs)
     chk.count("graph_ok_strict_dependencies", gstrict)
